@@ -490,11 +490,14 @@ def drive(prop, tier, seed, nshards, budget_s, only=None):
     replayed = 0
     rdir = os.path.join(HERE, 'replays', prop)
     known_hits_replay = Counter()
+    files = []
     if os.path.isdir(rdir):
-        for fn in sorted(os.listdir(rdir)):
-            if not fn.endswith('.json'):
-                continue
-            path = os.path.join(rdir, fn)
+        files = [os.path.join(rdir, fn) for fn in sorted(os.listdir(rdir)) if fn.endswith('.json')]
+        tdir = os.path.join(rdir, 'thorough')       # expensive regression cases: thorough tier only
+        if tier == 'thorough' and os.path.isdir(tdir):
+            files += [os.path.join(tdir, fn) for fn in sorted(os.listdir(tdir)) if fn.endswith('.json')]
+    if True:
+        for path in files:
             res = replay_file(mod, path, known)
             replayed += 1
             if isinstance(res, Violation):
